@@ -18,7 +18,7 @@ def register(PROPS):
                  'also two tasks per checkpoint), parsed again and compared: attributes, remaining occurrences (<= 200, up to year 2099) '
                  'and durations; the same through echsq\'s own add_fd()/massage() and through the echse binaries; and one event is '
                  'written with every padding length 0..4300 so that every write call site meets the end of the 4 KiB writer buffer at '
-                 'every offset.  Exhaustive within that bound; anything else is reported.  A many-UIDs driver parses up to 1000 (thorough 5000) events with distinct UIDs of five patterns in one process and requires every task to read, print and re-read under the UID it was submitted with (the UID intern table has several levels).  Further drivers: c05_fdstate (every sequence of up to 4 (6) documents over {regular file, /dev/full, a 5 KiB task to a regular file} on one descriptor number and on two alternating ones: echs_icalify_fini reports loss exactly for the /dev/full documents, successful documents read back); c05_attendees (1-3 (4) ATTENDEE lines with EVERY tuple of address lengths 1..36, with and without mailto:, read, written and read again; plain and under ASan); c05_zones (every sequence of 2-4 events out of six kinds - Europe/Berlin, America/New_York, Asia/Tokyo local times, recurring or one-off, with and without DTEND - in one calendar, each run in a freshly forked image: every task reads, and writes and reads again, to the occurrences and durations it has when it is alone in a fresh image).',
+                 'every offset.  Exhaustive within that bound; anything else is reported.  A many-UIDs driver parses up to 1000 (thorough 5000) events with distinct UIDs of five patterns in one process and requires every task to read, print and re-read under the UID it was submitted with (the UID intern table has several levels).  Further drivers: c05_fdstate (every sequence of up to 4 (6) documents over {regular file, /dev/full, a 5 KiB task to a regular file} on one descriptor number and on two alternating ones: echs_icalify_fini reports loss exactly for the /dev/full documents, successful documents read back); c05_attendees (1-3 (4) ATTENDEE lines with EVERY tuple of address lengths 1..36, with and without mailto:, read, written and read again; plain and under ASan); c05_longlines (SUMMARY, LOCATION, X-ECHS-OFILE, DESCRIPTION lines of every unfolded length 960..1030 (700..1100) in four spellings - LF, CRLF, folded at 75 with LF, with CRLF - must read alike, completely up to 1023 octets, and alike again when pushed in two pieces cut within 2 octets of the line breaks and folds); c05_zones (every sequence of 2-4 events out of six kinds - Europe/Berlin, America/New_York, Asia/Tokyo local times, recurring or one-off, with and without DTEND - in one calendar, each run in a freshly forked image: every task reads, and writes and reads again, to the occurrences and durations it has when it is alone in a fresh image).',
         'note': 'Both streams of a round trip come from the code under test: whether the expansion itself is right is C01\'s claim. '
                 'Sub-daily frequencies are taken with single BY parts only (sparse combinations are C09\'s work-bound subject). '
                 'Properties outside the README table (DESCRIPTION, X-GA-*) are carried along; DESCRIPTION is compared in the '
@@ -47,6 +47,8 @@ def register(PROPS):
         'drivers': [
             D('c05_manyuids', ['maxn=1000'], ['maxn=5000'], label='many-uids', shards=8),
             D('c05_fdstate', ['depth=4'], ['depth=6'], label='fd-state', shards=4),
+            D('c05_longlines', ['lo=960', 'hi=1030'], ['lo=700', 'hi=1100'], label='long-lines', shards=8),
+            D('c05_longlines', ['lo=1000', 'hi=1030'], ['lo=960', 'hi=1030'], label='long-lines-asan', shards=8, variant='asan'),
             D('c05_zones', ['maxn=4'], label='zones', shards=8),
             D('c05_zones', ['maxn=3'], ['maxn=4'], label='zones-asan', shards=8, variant='asan'),
             D('c05_attendees', ['maxn=3', 'maxlen=36'], ['maxn=4', 'maxlen=36'], label='attendees', shards=8),
